@@ -8,7 +8,7 @@ PID = 'C10'
 TAGS = ['putreq', 'putrej', 'getreq', 'got', 'caught']
 RULE = ('(a) producer/consumer families: 1-3 producers and 1-4 consumers (single gets and iteration with early break) on '
         '1-2 queues inside one (until-)scope, random put/get/close times on a coarse grid, cancels injected after t time units '
-        'and k postponements, deadlines, volatile participants; (b) random whole-API programs with a queue-heavy profile; '
+        'and k postponements, deadlines, volatile participants; (a2) put/close races and hand-over races: receivers cancelled, closed or cut off in the time step in which items arrive, probed by later puts and a late receiver; (b) random whole-API programs with a queue-heavy profile; '
         'non-trivial = at least 2 items received by at least 1 consumer while another participant was cancelled/closed or a '
         'second consumer exists')
 
@@ -60,13 +60,50 @@ def close_race(rng):
     return ['scenario', ['debug', 1], ['start', 0], ['flags', 1], ['locks', 0], ['queues', 1], ['roots'] + roots]
 
 
+def handover_race(rng):
+    """several receivers wait on an empty queue; items arrive in the very time step in which some of the receivers
+    are cancelled, closed with their scope or cut off by a deadline (the read mutex is being handed from receiver
+    to receiver just then); later puts and a late receiver show whether anything got stuck"""
+    t = rng.choice([1, 2])
+    roots = []
+    ntask = 0
+    item = 0
+    for i in range(rng.randint(2, 4)):
+        get = ['try', ['body', ['qget', 0]] + ([['qget', 0]] if rng.random() < 0.3 else []),
+               ['handler', ['pats', 'streamClosed'], ['body', ['log', 60 + i]]]]
+        r = rng.random()
+        if r < 0.3:
+            prog = [get]
+        elif r < 0.55:
+            prog = [['scope', i, ['delay', t], get], ['log', 70 + i]]
+        elif r < 0.8:
+            prog = [['scope', i, ['none'], ['spawn', i, ntask, None, None, False, ['prog', get]],
+                     ['sleep', t]] + [['sleep', 0]] * rng.randint(0, 3) + [['cancel', ntask, 3]]]
+            ntask += 1
+        else:
+            prog = [['scope', i, ['none'], ['spawn', i, ntask, None, None, True, ['prog', get]],
+                     ['sleep', t]] + [['sleep', 0]] * rng.randint(0, 3)]
+            ntask += 1
+        roots.append(['prog'] + prog)
+    puts = []
+    for _ in range(rng.randint(1, 3)):
+        item += 1
+        puts.append(['qput', 0, item])
+    roots.append(['prog', ['sleep', t]] + [['sleep', 0]] * rng.randint(0, 2) + puts)
+    item += 1
+    roots.append(['prog', ['sleep', t + 1], ['qput', 0, item], ['qput', 0, item + 1]])
+    roots.append(['prog', ['sleep', t + rng.choice([F(1, 2), 1, 2])], ['qiter', 0, 3]])
+    rng.shuffle(roots)
+    return ['scenario', ['debug', 1], ['start', 0], ['flags', 1], ['locks', 0], ['queues', 1], ['roots'] + roots]
+
+
 def nontrivial(impl):
     return sum(1 for e in impl['events'] if ':got:' in e) >= 2
 
 
 def run(tier, seed, drv):
-    return msuite.standard_run(PID, 'C10', TAGS, tier, seed, drv, [family, lambda r: gen.gen_scenario(r, PROFILE), close_race],
-                               nontrivial=nontrivial, rule=RULE)
+    return msuite.standard_run(PID, 'C10', TAGS, tier, seed, drv, [family, lambda r: gen.gen_scenario(r, PROFILE), close_race, handover_race],
+                               nontrivial=nontrivial, rule=RULE, n_quick=300)
 
 
 def replay(data, drv):
